@@ -23,6 +23,7 @@ EXPLANATION = (
     "rational multiples of the file's π literal. Exhaustive over the table; the reader also checks that every entry of "
     "the files resolves, has no cycle and no spelling is claimed by two units. Does not decide that pint's own "
     "interpreter reads the files the same way (C02/C10) nor float accuracy.")
+EXPLANATION += ' Also decided (rules added after the second round of seeded changes): a lazily registered prefixed unit can never be stored under a symbol (one registration, long name only); 116 further entries: CODATA-2022 derived constants to their published digits, conventional 1990 electrical units, conventional manometer liquids, logarithmic units (reference, logbase, logfactor).'
 
 BASE_DIM = {"[length]": "meter", "[mass]": "gram", "[time]": "second", "[current]": "ampere", "[temperature]": "kelvin", "[substance]": "mole", "[luminosity]": "candela"}
 
